@@ -166,7 +166,10 @@ def apply(r, op, v):
     try:
         if len(op) > 3 and op[3]:  # operate through a sub-group handle
             r = r[op[3]]
-        if kind == "create_group": r.create_group(p)
+        if kind in ("create_group", "require_group"):
+            g = r.create_group(p) if kind == "create_group" else r.require_group(p)
+            # the returned handle must show the same node as a plain file's handle does
+            return "ok:" + repr((g.name, sorted(g.keys()), len(g), sorted(g.attrs.keys()), g.parent.name))
         elif kind in ("set", "setitem"): r[p] = v
         elif kind == "create_dataset": r.create_dataset(p, data=v)
         elif kind in ("del", "delitem"): del r[p]
@@ -201,7 +204,7 @@ try:
             n += 1
             a, b = apply(rec, op, n), apply(plain, op, n)
             print("container", i, op, "->", a, "| plain:", b)
-            if (a == "ok") != (b == "ok"):
+            if a.startswith("ok") != b.startswith("ok") or (a.startswith("ok:") and a != b):
                 bad.append(("outcome differs", i, op, a, b))
         try:
             ta, tb = tree(rec), tree(plain)
@@ -224,7 +227,7 @@ try:
     elif FINAL is not None and not bad:
         a, b = apply(rec, FINAL, NEWV), apply(plain, FINAL, NEWV)
         print("final", FINAL, "->", a, "| plain:", b)
-        if FINAL[0] != "set_delvalue" and (a == "ok") != (b == "ok"):
+        if FINAL[0] != "set_delvalue" and (a.startswith("ok") != b.startswith("ok") or (a.startswith("ok:") and a != b)):
             bad.append(("final outcome differs", FINAL, a, b))
         try:
             ta, tb = tree(rec), tree(plain)
